@@ -145,6 +145,35 @@ CHECKS = {
          "that host dependencies of tools do not propagate) and directories of weak tools are recorded by name only. Live-build-id "
          "prediction is exercised only through deterministic checkout scripts (no git/url SCM here).",
          "3 (C07)", "E1 bobproc, E2 projgen, E3 scripts, E4 treecanon"),
+ "C12": ("exploration",
+         "Hypothesis (source universe, SCM specification, history of recipe edits / upstream events / user actions / Bob commands) generation; marker oracle for user work (every file and commit marker must survive in place or in the attic), convergence oracle untouched workspace == fresh checkout elsewhere (tree canonicaliser)",
+         "Local bare git repositories (written without git processes), url files/tarballs and import directories; 2-3 rounds of user "
+         "actions (dirty file, untracked file, commits, branches, detached HEAD), recipe SCM edits and upstream events followed by "
+         "bob dev / --clean-checkout / clean / clean -s / clean --attic. After every invocation all user markers must exist below "
+         "the project; at the end directories the user did not touch must equal a fresh checkout of the final specification.",
+         "No network SCMs (file:// and local paths only), no svn/cvs, no rebase: True, no git submodules. Oracle A (convergence) is "
+         "evaluated at the end of a case only. Four genuine convergence defects were found: one is repaired, three are listed known "
+         "findings that are excluded by structural matchers and counted.",
+         "3 (C12)", "E1 bobproc, E4 treecanon, vlib/srcuni.py"),
+ "C14": ("exploration",
+         "Hypothesis (project, overlay with meta variables / url+git SCMs / audit files, history kind fresh / incremental / downloading / shared) generation; independent audit reader with schema transcribed from the manual, closure check, re-implemented directory hash and artifact-id, ids from a fresh in-process parse, uploader/consumer document comparison",
+         "For every step workspace of the current graph after every successful invocation the audit trail is read with an own reader and "
+         "checked for structure, transitive closure, variant-id / result-hash / build-id, meta data and -M defines, argument / tool / "
+         "sandbox references in order, SCM records (import, url, git), artifact-id as function of the record, and equality with the "
+         "document inside uploaded artifacts and in downloaded / shared workspaces.",
+         "Trails of steps that an invocation skipped are judged as the trail of the invocation that produced them (package path of an "
+         "earlier state accepted); stale meta variables after a metadata-only edit are a listed known finding. No sandbox, svn, "
+         "release mode or submodules. Date, uname, os-release and the env dump (beyond exported variables) are never compared.",
+         "3 (C14)", "E1 bobproc, E2 projgen, E5 pkgdump"),
+ "C15": ("exploration",
+         "Hypothesis-generated operation histories of 2-4 projects on one LocalShare executed (a) sequentially, (b) as threads under a harness-owned scheduler that interleaves at flock/rename/open granularity, (c) as real forked processes; reference model of the store (content, users, sizes, quota), invariants after every step",
+         "install / use / unuse / gc (all flag combinations, quota none / tight / loose, autoClean) through LocalShare and the builder's "
+         "_installSharedPackage/_useSharedPackage code; after every operation: no used package is collected by a non-forced gc, "
+         "content is never mixed or truncated, repo.json sizes match, gc removes oldest-first, links point to complete packages.",
+         "Interleavings are owned at the granularity of the instrumented primitives (flock, rename, open, json dump); kernel-level races "
+         "inside one syscall are out of reach. Crash points are not injected here. Seven genuine defects were found and repaired "
+         "(see known_findings.json, fixed records).",
+         "3 (C15)", "own scheduler (checks/c15_share.py)"),
 }
 
 NOT_YET = {}
